@@ -345,6 +345,9 @@ func main() {
 	if phase == "all" || phase == "codecs" {
 		codecsPhase(r, thorough)
 	}
+	if phase == "limiter" {
+		limiterPhase(r, thorough)
+	}
 	keys := make([]string, 0, len(stats))
 	for k := range stats {
 		keys = append(keys, k)
